@@ -651,6 +651,48 @@ theorem C14_torrent_convertM {V : Type} (ofStr : Str → V) (ofInt : Int → V) 
     rw [ei hashOf h2]
     simp [convertM, C14_torrent_hash s hv]
 
+/-- Every `torrent()` result is independent of what the caller did to earlier results: in any
+    history of `torrent()` calls, in-place edits of any earlier result (any function of it, any
+    depth) and changes of the magnet's own fields, (1) each `torrent()` returns the torrent specified
+    for the fields held at that moment and the metadata `get_info()` adopted (`specRunT` ignores the
+    edits), (2) the magnet still holds exactly the adopted metadata afterwards, and (3) an edit
+    touches only the result it is applied to — every other result handed out so far is unchanged.
+    (Regression statement for the repaired finding D14i; with `C14_torrent_after_adoption` each
+    result's info section is the adopted one.) -/
+theorem C14_torrent_results_independent {V : Type} (ofStr : Str → V) (ofInt : Int → V) (ih : Str)
+    (st : TState V) (ops : List (TOp V)) :
+    (runT ofStr ofInt ih st ops).1 = specRunT ofStr ofInt ih st.fields st.adopted ops ∧
+    (runT ofStr ofInt ih st ops).2.adopted = st.adopted ∧
+    (∀ (i : Nat) (g : TorrentOut V → TorrentOut V) (j : Nat), j ≠ i →
+      (stepT ofStr ofInt ih st (.edit i g)).2.results[j]? = st.results[j]?) := by
+  refine ⟨?_, ?_, ?_⟩
+  · induction ops generalizing st with
+    | nil => rfl
+    | cons op ops ih' =>
+      cases op with
+      | torrent =>
+        simp only [runT, stepT, specRunT]
+        cases h : torrentOf ofStr ofInt ih st.fields st.adopted with
+        | ok t => simp only [ih']
+        | error e => simp only [ih']
+      | edit i g => simp only [runT, stepT, specRunT, ih']
+      | setFields f => simp only [runT, stepT, specRunT, ih']
+  · induction ops generalizing st with
+    | nil => rfl
+    | cons op ops ih' =>
+      cases op with
+      | torrent =>
+        simp only [runT, stepT]
+        cases h : torrentOf ofStr ofInt ih st.fields st.adopted with
+        | ok t => simp only [ih']
+        | error e => simp only [ih']
+      | edit i g => simp only [runT, stepT, ih']
+      | setFields f => simp only [runT, stepT, ih']
+  · intro i g j hji
+    simp only [stepT, List.getElem?_modify]
+    have : ¬ i = j := fun e => hji e.symm
+    simp [this]
+
 /-! ### non-vacuity -/
 
 example : validHash ("ABCDEFabcdef0123456789abcdefABCDEF012345".toList) = true := by decide
@@ -689,5 +731,14 @@ example : ((torrentOf (V := Nat) (fun _ => 0) (fun _ => 1) ("ab".toList) { dn :=
 /-- … while without metadata `dn` and `xl` make the info section -/
 example : ((torrentOf (V := Nat) (fun _ => 0) (fun _ => 1) (List.replicate 40 'a') { dn := some ['x'], xl := some 7 }
       none).toOption.map (·.info)) = some [(kName, 0), (kLength, 1)] := by decide
+
+/-- a concrete history get_info → torrent() → edit the result (info section wiped, trackers
+    replaced) → torrent(): the second result is the first one as it was returned -/
+example : (runT (V := Nat) (fun _ => 0) (fun _ => 1) (List.replicate 40 'a')
+      { fields := { dn := some ['x'], xl := some 7, tr := [['t']] }, adopted := some [("files".toList, 5), (kName, 6)], results := [] }
+      [.torrent, .edit 0 (fun t => { t with info := [], trackers := [] }), .torrent]).1.map
+        (fun r => r.toOption.map fun t => (t.info, t.trackers)) =
+    [some ([("files".toList, 5), (kName, 6)], [['t']]), some ([("files".toList, 5), (kName, 6)], [['t']])] := by
+  decide
 
 end Torf.C14
